@@ -202,7 +202,8 @@ func (c *Ctx) ruleR03c(rule string) {
 	}
 }
 
-// mapKeyParams describes, for a ResultCache method, which parameters index the outer and inner map ("1,2").
+// mapKeyParams describes, for a ResultCache method, which parameters index the outer and the inner map ("idx,pos").
+// The inner map may be reached directly (rc[a][b]) or through a local (m := rc[a]; m[b]).
 func mapKeyParams(fn *ssa.Function) string {
 	pidx := func(v ssa.Value) int {
 		for i, p := range fn.Params {
@@ -213,39 +214,66 @@ func mapKeyParams(fn *ssa.Function) string {
 		return -1
 	}
 	recv := fn.Params[0]
+	// inner: values that are rc[...] (or the fresh map stored into rc[...])
+	var derivesInner func(v ssa.Value, depth int) bool
+	derivesInner = func(v ssa.Value, depth int) bool {
+		if depth > 6 {
+			return false
+		}
+		for _, l := range ssax.Leaves(v) {
+			switch x := l.(type) {
+			case *ssa.Lookup:
+				if x.X == ssa.Value(recv) {
+					return true
+				}
+			case *ssa.Extract:
+				if lk, ok := x.Tuple.(*ssa.Lookup); ok && lk.X == ssa.Value(recv) && x.Index == 0 {
+					return true
+				}
+			case *ssa.MakeMap:
+				// stored into the outer map?
+				if x.Referrers() != nil {
+					for _, r := range *x.Referrers() {
+						if mu, ok := r.(*ssa.MapUpdate); ok && mu.Map == ssa.Value(recv) && mu.Value == ssa.Value(x) {
+							return true
+						}
+					}
+				}
+			}
+		}
+		return false
+	}
 	outer, inner := -1, -1
+	set := func(dst *int, k int) bool {
+		if k < 0 {
+			return false
+		}
+		if *dst == -1 || *dst == k {
+			*dst = k
+			return true
+		}
+		return false
+	}
 	for _, b := range fn.Blocks {
 		for _, in := range b.Instrs {
 			switch x := in.(type) {
 			case *ssa.Lookup:
-				if x.X == recv {
-					if k := pidx(x.Index); outer == -1 || outer == k {
-						outer = k
-					} else {
+				if x.X == ssa.Value(recv) {
+					if !set(&outer, pidx(x.Index)) {
 						return ""
 					}
-				} else if l, ok := ssax.Strip(x.X).(*ssa.Lookup); ok && l.X == recv {
-					if k := pidx(x.Index); inner == -1 || inner == k {
-						inner = k
-					} else {
+				} else if derivesInner(x.X, 0) {
+					if !set(&inner, pidx(x.Index)) {
 						return ""
-					}
-				} else if e, ok := x.X.(*ssa.Extract); ok {
-					if l, ok := e.Tuple.(*ssa.Lookup); ok && l.X == recv {
-						inner = pidx(x.Index)
 					}
 				}
 			case *ssa.MapUpdate:
-				if x.Map == recv {
-					if k := pidx(x.Key); outer == -1 || outer == k {
-						outer = k
-					} else {
+				if x.Map == ssa.Value(recv) {
+					if !set(&outer, pidx(x.Key)) {
 						return ""
 					}
-				} else if l, ok := x.Map.(*ssa.Lookup); ok && l.X == recv {
-					if k := pidx(x.Key); inner == -1 || inner == k {
-						inner = k
-					} else {
+				} else if derivesInner(x.Map, 0) {
+					if !set(&inner, pidx(x.Key)) {
 						return ""
 					}
 				}
@@ -377,7 +405,7 @@ func (c *Ctx) mapRangeOrderInsensitive(a *own.Analysis, fn *ssa.Function, rg *ss
 	for _, b := range body {
 		for _, in := range b.Instrs {
 			switch x := in.(type) {
-			case *ssa.Next, *ssa.Extract, *ssa.If, *ssa.Jump, *ssa.BinOp, *ssa.Phi, *ssa.IndexAddr, *ssa.UnOp, *ssa.DebugRef, *ssa.FieldAddr, *ssa.Lookup:
+			case *ssa.Next, *ssa.Extract, *ssa.If, *ssa.Jump, *ssa.BinOp, *ssa.Phi, *ssa.IndexAddr, *ssa.UnOp, *ssa.DebugRef, *ssa.FieldAddr, *ssa.Lookup, *ssa.Alloc, *ssa.Slice, *ssa.MakeSlice, *ssa.Convert, *ssa.ChangeType:
 			case *ssa.MapUpdate:
 				for o := range fi.Origins(x.Map) {
 					if o.Root.K != own.RFresh {
@@ -403,6 +431,25 @@ func (c *Ctx) mapRangeOrderInsensitive(a *own.Analysis, fn *ssa.Function, rg *ss
 				}
 				kind = "(ii) body fills a fresh slice; its parse-time consumers only test elements and return constants"
 			case *ssa.Call:
+				if bi, isB := x.Call.Value.(*ssa.Builtin); isB {
+					switch bi.Name() {
+					case "len", "cap":
+						continue
+					case "append":
+						// (ii) with append instead of an indexed store: the slice must be this activation's own
+						for o := range fi.Origins(x.Call.Args[0]) {
+							if o.Root.K != own.RFresh {
+								return ""
+							}
+						}
+						if !c.keysConsumersOrderInsensitive(fn) {
+							return ""
+						}
+						kind = "(ii) body appends to a fresh slice; its parse-time consumers only test elements and return constants"
+						continue
+					}
+					return ""
+				}
 				// (iii) callback iteration: acceptable only if no parse-time caller
 				if _, isParam := x.Call.Value.(*ssa.Parameter); isParam && !x.Call.IsInvoke() {
 					for _, e := range c.P.Callers(fn) {
